@@ -149,6 +149,26 @@ class ScanOracles(LinOracles):
             nb = tuple(bases[1:]) + (int(b[0][2:]),)
             at = nb[0] if nb == tuple(range(nb[0], nb[0] + self.p)) else None
             return Opaque("P", {"pmer"}, {"at": at, "bases": nb})
+        if tr.endswith("PartialEq") and name in ("eq", "ne") and len(args) == 2:
+            a, b = recv(it, args[0]), recv(it, args[1])
+            if isinstance(a, Opaque) and isinstance(b, Opaque) and "pmer" in tags_of(a) and "pmer" in tags_of(b):
+                ba, bb = a.info.get("bases"), b.info.get("bases")
+                if ba is not None and ba == bb:
+                    eq = True
+                else:
+                    ia, ib = a.info.get("at"), b.info.get("at")
+                    if ia is None or ib is None:
+                        raise Undecided("equality of p-mers that are not windows of the sequence")
+                    lo, hi = min(ia, ib), max(ia, ib)
+                    d = {"s%d" % lo: 1, "s%d" % hi: -1}
+                    # equal p-mers have equal scores: if the scores are already known to differ the p-mers differ
+                    if self.decide("Eq", d, 0) is False:
+                        eq = False
+                    else:
+                        eq = self.choose("pmer%d==pmer%d" % (lo, hi), (False, True))
+                        if eq:
+                            self.refine("Eq", d, 0, True)
+                return mkbool(eq if name == "eq" else not eq)
         if name in ("call", "call_mut", "call_once") and isinstance(recv(it, args[0]), Opaque) and "score-fn" in tags_of(recv(it, args[0])):
             pm = recv(it, args[1].fields[0]) if isinstance(args[1], Tup) else None
             at = pm.info.get("at") if isinstance(pm, Opaque) else None
@@ -279,34 +299,98 @@ def check_partition(ivs, sc, m, k, p):
 # =========================================================================== C07.6 narrowing casts are guarded
 
 def cast_guards(F, rep, rule="C07.6"):
+    """every narrowing `as` cast in Scanner::scan must be unreachable with a value that does not fit: the assertions that
+    dominate it are evaluated (as formulas over k, p and the sequence length) on a grid of boundary parameter values; a
+    parameter triple that passes every dominating assertion and still allows an interval length 2k-p (for u16 / u8 casts) or a
+    position < len (for u32 casts) beyond the target type is a witness of silent truncation."""
+    from . import structural
     cands = [b for b in F.fns.values() if b["path"].startswith("msp::Scanner") and b["path"].endswith("::scan")]
     if len(cands) != 1:
         return
     body = cands[0]
     g = C.CFG(body)
     d = C.Defs(body)
-    # guards: a branch whose one edge reaches a panic immediately; its condition compares something with a constant
-    guards = []
+    fields = structural.field_names(F, "msp::Scanner") or []
+    M64 = (1 << 64) - 1
+
+    class Unknown(Exception):
+        pass
+
+    def ev(e, env):
+        if not isinstance(e, tuple):
+            raise Unknown(repr(e))
+        if e[0] == "const" and isinstance(e[1], int):
+            return e[1]
+        if e[0] == "call":
+            nm = e[1]
+            if nm.endswith("Mer::len") or nm.endswith("::len"):
+                return env["len"]
+            if nm.endswith("Kmer::k"):
+                return env["p"]
+            raise Unknown(nm)
+        if e[0] == "field" and isinstance(e[2], int) and e[2] < len(fields) and fields[e[2]] == "k":
+            return env["k"]
+        if e[0] in ("deref", "ref", "copy", "move", "use") and len(e) >= 2:
+            return ev(e[1], env)
+        if e[0] == "cast" and len(e) >= 2:
+            return ev(e[1], env)
+        if e[0] == "un" and e[1] == "Not":
+            v = ev(e[2], env)
+            return (not v) if isinstance(v, bool) else (~v) & M64
+        if e[0] == "bin":
+            op = e[1]
+            x, y = ev(e[2], env), ev(e[3], env)
+            if op in ("Add", "AddUnchecked", "AddWithOverflow"):
+                return (x + y) & M64
+            if op in ("Sub", "SubUnchecked", "SubWithOverflow"):
+                return (x - y) & M64
+            if op in ("Mul", "MulUnchecked", "MulWithOverflow"):
+                return (x * y) & M64
+            if op in ("Shl", "ShlUnchecked"):
+                return (x << y) & M64 if y < 64 else 0
+            if op in ("Shr", "ShrUnchecked"):
+                return x >> y if y < 64 else 0
+            if op == "Div":
+                if y == 0:
+                    raise Unknown("div0")
+                return x // y
+            if op == "BitAnd":
+                return (x and y) if isinstance(x, bool) else x & y
+            if op == "BitOr":
+                return (x or y) if isinstance(x, bool) else x | y
+            if op in ("Lt", "Le", "Gt", "Ge", "Eq", "Ne"):
+                return {"Lt": x < y, "Le": x <= y, "Gt": x > y, "Ge": x >= y, "Eq": x == y, "Ne": x != y}[op]
+            raise Unknown(op)
+        raise Unknown(e[0])
+
+    # guards: a branch one of whose edges panics immediately
+    guards = []   # (block, expr, panics_when_value)
     for bi in g.reach0:
         t = body["blocks"][bi]["t"]
         if t.get("k") != "switch":
             continue
-        for tv, tb in t["targets"] + [[None, t["otherwise"]]]:
+        edges = [(tv, tb) for tv, tb in t["targets"]] + [(None, t["otherwise"])]
+        for tv, tb in edges:
             tt = body["blocks"][tb]["t"]
-            if tt.get("k") == "call":
-                fr = C.callee_of(tt) if hasattr(C, "callee_of") else None
             fr = tt["f"].get("const", {}).get("fn") if tt.get("k") == "call" and "const" in tt["f"] else None
             if fr and (fr.get("path", "").startswith("core::panicking") or "panic" in fr.get("path", "")):
-                e = d.expr_operand(t["o"])
-                consts = []
-                C.expr_mentions(e, lambda x: consts.append(x[1]) if isinstance(x, tuple) and len(x) == 2 and x[0] == "const" and isinstance(x[1], int) else False)
-                # constant-folded shifts: (1 << 32) appears as bin Shl(1, 32)
-                def shl(x):
-                    if isinstance(x, tuple) and len(x) == 4 and x[0] == "bin" and x[1] == "Shl" and x[2] == ("const", 1) and isinstance(x[3], tuple) and x[3][0] == "const":
-                        consts.append(1 << x[3][1])
-                    return False
-                C.expr_mentions(e, shl)
-                guards.append((bi, consts))
+                others = [v for v, b2 in edges if b2 != tb]
+                guards.append((bi, d.expr_operand(t["o"]), tv, others))
+
+    def passes(guard, env):
+        """True / False / None (not evaluable)"""
+        bi, e, tv, others = guard
+        try:
+            v = ev(e, env)
+        except Unknown:
+            return None
+        v = int(v)
+        if tv is None:       # the panic is the `otherwise` edge: passing needs one of the listed values
+            return v in [o for o in others if o is not None]
+        return v != tv
+
+    ks = [1, 2, 16, 31, 32, 255, 256, 32766, 32767, 32768, 32769, 32770, 32772, 33000, 40000, 65535, 65536, 65537, 70000, 1 << 20, (1 << 31) + 7, 1 << 32]
+    ps = [1, 2, 4, 5, 8, 16, 31, 32]
     n = 0
     for bi in sorted(g.reach0):
         for st in body["blocks"][bi]["s"]:
@@ -317,15 +401,50 @@ def cast_guards(F, rep, rule="C07.6"):
             if tgt.get("k") != "uint" or tgt["w"] >= 64:
                 continue
             n += 1
-            limit = 1 << tgt["w"]
-            ok = any(g.dominates(gb, bi) and any(c <= limit and c > 255 for c in consts) for gb, consts in guards)
-            key = "scan/cast-u%d#%d" % (tgt["w"], n)
-            if ok:
-                rep.holds(rule, key, "narrowing cast #%d to u%d is dominated by an assertion bounding the scanned quantities below 2^%d" % (n, tgt["w"], tgt["w"]))
+            w = tgt["w"]
+            limit = 1 << w
+            dom = [gd for gd in guards if g.dominates(gd[0], bi)]
+            key = "scan/cast-u%d#%d" % (w, n)
+            witness = None
+            unknown = False
+            for k in ks:
+                for p in ps:
+                    if p > k:
+                        continue
+                    lens = sorted({2 * k - p, 2 * k, limit - 1, limit, limit + 5, 1 << 33} | ({(1 << 32) - 1} if w < 32 else set()))
+                    for L in lens:
+                        if L < k:
+                            continue
+                        env = {"k": k, "p": p, "len": L}
+                        # what the cast operand can reach: an interval length (<= min(2k-p, len)) for the small targets, a position (< len) for u32
+                        reach = min(2 * k - p, L) if w < 32 else L - 1
+                        if reach < limit:
+                            continue
+                        res = [passes(gd, env) for gd in dom]
+                        if any(r is False for r in res):
+                            continue
+                        if any(r is None for r in res):
+                            unknown = True
+                            continue
+                        witness = env
+                        break
+                    if witness:
+                        break
+                if witness:
+                    break
+            if witness:
+                rep.violated(rule, key, "Scanner::scan narrows an interval quantity to u%d with `as` (line %s); the assertions that dominate the cast all pass for "
+                             "k=%d, p=%d, sequence length %d, where %s — the value wraps silently" % (
+                                 w, st.get("ln"), witness["k"], witness["p"], witness["len"],
+                                 ("an interval can be 2k-p = %d >= 2^%d bases long" % (2 * witness["k"] - witness["p"], w)) if w < 32 else ("positions reach %d >= 2^%d" % (witness["len"] - 1, w))),
+                             site=F.site(body, st.get("ln")), witness={"kind": "cast-guard", "bits": w, "expr": C.show(src_e)[:300], "params": witness,
+                                                                    "guards": [C.show(gd[1])[:120] for gd in dom]})
+            elif unknown:
+                rep.inconclusive(rule, key, "narrowing cast #%d to u%d: a dominating assertion is not a formula over k, p and the sequence length: %s" % (
+                    n, w, [C.show(gd[1])[:100] for gd in dom]))
             else:
-                rep.violated(rule, key, "Scanner::scan narrows an interval quantity to u%d with `as` (line %s) and no dominating assertion bounds it below 2^%d: "
-                             "long k-mers / sequences wrap silently" % (tgt["w"], st.get("ln"), tgt["w"]), site=F.site(body, st.get("ln")),
-                             witness={"kind": "cast-guard", "bits": tgt["w"], "expr": C.show(src_e)[:300]})
+                rep.holds(rule, key, "narrowing cast #%d to u%d: no parameter triple (k, p, len) of the boundary grid passes the %d dominating assertion(s) %s and "
+                          "lets the value reach 2^%d" % (n, w, len(dom), [C.show(gd[1])[:60] for gd in dom], w))
     if n == 0:
         rep.holds(rule, "scan/no-narrowing-casts", "Scanner::scan contains no narrowing `as` cast", nontrivial=False)
 
@@ -356,11 +475,11 @@ class ScoreOracles(LinOracles):
 class MspHostOracles(ScoreOracles):
     """runs msp_sequence / simple_scan with the scanner scripted; captures the score callable handed to Scanner::new"""
 
-    def __init__(self, script=()):
+    def __init__(self, script=(), N=10):
         ScoreOracles.__init__(self, script)
         self.score = None
         self.ev = []
-        self.K, self.P, self.N = 4, 2, 10
+        self.K, self.P, self.N = 4, 2, N
 
     def on_call(self, it, fn, args, dest_ty, term, caller):
         path = fn.get("path", "")
@@ -380,6 +499,7 @@ class MspHostOracles(ScoreOracles):
                             args[2].val if isinstance(args[2], Int) and args[2].is_conc() else None))
             return Opaque("Scanner", {"scanner"})
         if path.startswith("msp::Scanner") and name == "scan":
+            self.ev.append(("scan",))
             ivs = []
             for i in range(2):
                 ivs.append(struct_of(it.facts, "msp::MspIntervalP", {"minimizer": Opaque("P", {"pmer"}, {"p": "m%d" % i}), "start": atom_int(32, "s%d" % i),
@@ -483,6 +603,38 @@ def msp_host_tables(F, rep, rule_score="C08.1", rule_piece="C08.2"):
                                 piece_problems.append("emitted triple %d is not (bucket of interval %d's minimizer, that piece's extensions, that piece): %r" % (i, i, t))
                     else:
                         inc.append("result of msp_sequence is %r" % (res,))
+        # ---- reads of exactly k bases hold one k-mer: the host must still run the scanner on them and emit what it returns
+        short_problems = []
+        for N in (4, 5):
+            def mk2(script, N=N):
+                return MspHostOracles(script, N)
+
+            def run2(h):
+                it = Interp(F, False, h)
+                h.it = it
+                seq = Ref(Cell(Opaque("[u8]", {"seq"}), "seq"))
+                perm = Ref(Cell(Opaque("[usize]", {"perm"}), "perm"))
+                if nm == "msp_sequence":
+                    args = [Int(64, False, val=h.K), seq, Adt("std::option::Option", 1, [perm]), mkbool(False)]
+                else:
+                    args = [Int(64, False, val=h.K), Ref(Cell(Opaque("V", {"seq"}), "seqv")), perm, mkbool(False)]
+                return it.call_body(body, args)
+            for a, out, h in explore(mk2, run2):
+                rep.evaluations += 1
+                if isinstance(out, tuple) and out and out[0] == "inconclusive":
+                    inc.append(out[1])
+                    continue
+                if isinstance(out, tuple) and out and out[0] == "diverge":
+                    short_problems.append("a read of %d bases (k = 4) makes %s diverge: %s" % (N, nm, out[1]))
+                    continue
+                if ("scan",) not in h.ev:
+                    short_problems.append("a read of %d bases (k = 4) is not scanned: its %d k-mer(s) are never emitted to any bucket" % (N, N - 3))
+                elif isinstance(out, VecV) and len(out.elems) != 2:
+                    short_problems.append("a read of %d bases (k = 4): %d of the scanner's 2 intervals are emitted" % (N, len(out.elems)))
+        if short_problems:
+            rep.violated(rule_piece, "short-read/" + nm, "%s: %s" % (nm, short_problems[0]), site=F.site(body, body["line"]), witness={"kind": "row", "count": len(short_problems)})
+        elif not inc:
+            rep.holds(rule_piece, "short-read/" + nm, "%s scans reads of exactly k and of k+1 bases and emits every interval the scanner returns" % nm)
         if problems:
             rep.violated(rule_score, "score/" + nm, "%s score: %s" % (nm, problems[0]), site=F.site(body, body["line"]), witness={"kind": "row", "count": len(problems)})
         elif inc:
